@@ -290,6 +290,23 @@ pub fn run_history(group: &Group, init: &Db, ops: &[Op]) -> HistOutcome {
          }
       }
    }
+   // size pre-check on the reference, before any compiled program runs: the model after the last push is the largest one
+   // (pushes are only generated for monotone programs); a case the bounded reference evaluator gives up on is skipped
+   // and counted, instead of being left to run unbounded in the compiled program
+   {
+      let mut model = init.clone();
+      for op in ops {
+         if let Op::Push(rel, row) = op {
+            if !model.get(rel).contains(row) {
+               model.rels.entry(rel.clone()).or_default().push(row.clone());
+            }
+         }
+      }
+      if let Err(EvalError::TooBig) = eval::eval(&group.ref_prog, &model, EvalOpts::default()) {
+         out.too_big = true;
+         return out;
+      }
+   }
    for m in &group.members {
       let pools_: Vec<Option<usize>> = if m.meta.kind.is_par() { vec![Some(1), Some(4)] } else { vec![None] };
       for pool in pools_ {
